@@ -427,6 +427,7 @@ pub fn property() -> Property {
                 name: "random-and-mutated",
                 rule: "random reachable state + random or mutated-valid buffer",
                 cases: (1_200_000, 10_000_000),
+                fuzz_decode: Some(crate::fuzzdec::c05_rand),
                 strategy: rand_strategy,
                 check: check_rand,
                 required_classes: &["reached-decoder", "mutated", "buffer>1000"],
@@ -435,6 +436,7 @@ pub fn property() -> Property {
                 name: "long-trains-huge-storage",
                 rule: "first + 10..40 intermediates of 3000..4094 bytes + end into storages of 65000..140000 bytes (accumulated length beyond 16 bits)",
                 cases: (12_000, 100_000),
+                fuzz_decode: None,
                 strategy: huge_strategy,
                 check: check_huge,
                 required_classes: &["carried>65535", "carried>storage"],
